@@ -2,7 +2,7 @@
 import ast
 import importlib.util
 
-from .. import cfg, flow
+from .. import cfg, flow, normalize
 from ..core import AnalysisError, norm, walk_no_nested, calls_in, set_parents
 
 META = {
@@ -488,28 +488,59 @@ def r4_fallbacks(rep, src, g):
     idx_try = [t for t in walk_no_nested(f.node) if isinstance(t, ast.Try) and any(_is_call(c, 'PackageFile') for s in t.body for c in ast.walk(s))]
     if len(idx_try) != 1:
         raise AnalysisError('%s: index download try-block not found' % f.site)
+    HIER = {'IOError': {'IOError', 'OSError', 'EnvironmentError', 'Exception', 'BaseException'}, 'ParseError': {'ParseError', 'Exception', 'BaseException'},
+            'UnicodeDecodeError': {'UnicodeDecodeError', 'UnicodeError', 'ValueError', 'Exception', 'BaseException'}}
+
+    def handler_names(h):
+        if h.type is None:
+            return {'BaseException'}
+        return {norm(x).split('.')[-1] for x in (h.type.elts if isinstance(h.type, ast.Tuple) else [h.type])}
+
+    def falls_back(h):
+        return any(isinstance(s, ast.Return) and s.value is not None and (_is_download(s.value, f) or (isinstance(s.value, ast.Call) and norm(s.value.func) in closures))
+                   for s in h.body)
+    why = {'ParseError': 'parsed', 'IOError': 'fetched', 'UnicodeDecodeError': 'decoded (bytes that are not text in the expected encoding: a compressed file, an error page)'}
+    # the index reader decodes the bytes it reads (a `.decode(...)` without an error policy, or a text-mode stream): that raises
+    # UnicodeDecodeError, a ValueError, for an index that is not text
+    pf = src.mod('debian_support').classes.get('PackageFile')
+    decodes = [c for q, fn_ in src.mod('debian_support').funcs.items() if q.startswith('PackageFile.') for c in ast.walk(fn_.node)
+               if isinstance(c, ast.Call) and isinstance(c.func, ast.Attribute) and c.func.attr == 'decode' and len(c.args) <= 1
+               and not any(k.arg == 'errors' for k in c.keywords)
+               and not any(isinstance(a, ast.Try) and any(handler_names(h_) & HIER['UnicodeDecodeError'] for h_ in a.handlers) for a in _ancestors(c))]
     need = {'ParseError': False, 'IOError': False}
+    if decodes or pf is None:
+        need['UnicodeDecodeError'] = False
     for h in idx_try[0].handlers:
-        names = norm(h.type) if h.type is not None else 'Exception'
-        falls = any(isinstance(s, ast.Return) and s.value is not None and (_is_download(s.value, f) or (isinstance(s.value, ast.Call) and norm(s.value.func) in closures))
-                    for s in h.body)
         for k in need:
-            if (k in names or (k == 'IOError' and 'OSError' in names) or names in ('Exception',)) and falls:
+            if handler_names(h) & HIER[k] and falls_back(h):
                 need[k] = True
     for k, v in need.items():
         if v:
             rep.ok('C19.R4', f.site, 'index %s → full download' % k, 'handler returns download_file', nontrivial=False)
         else:
-            rep.fail('C19.R4', f.site, 'index %s → full download' % k, 'an index that cannot be %s does not lead to a full download'
-                     % ('parsed' if k == 'ParseError' else 'fetched'), where='%s:%d' % (f.module.relpath, idx_try[0].lineno))
-    # missing local copy
+            rep.fail('C19.R4', f.site, 'index %s → full download' % k, 'an index that cannot be %s does not lead to a full download%s'
+                     % (why[k], ': %s propagates to the caller' % k if k == 'UnicodeDecodeError' else ''), where='%s:%d' % (f.module.relpath, idx_try[0].lineno))
+    # missing, unreadable or foreign local copy: opening fails with OSError, reading a file that is not text in the expected encoding
+    # with UnicodeDecodeError (text mode, strict error policy)
     loc_try = [t for t in walk_no_nested(f.node) if isinstance(t, ast.Try) and any(_is_call(c, 'open') for s in t.body for c in ast.walk(s))]
-    okl = any(any(isinstance(s, ast.Return) and s.value is not None and (_is_download(s.value, f) or (isinstance(s.value, ast.Call) and norm(s.value.func) in closures))
-                  for s in h.body) for t in loc_try for h in t.handlers)
-    if okl:
-        rep.ok('C19.R4', f.site, 'missing local copy → full download', 'except IOError: return download_file', nontrivial=False)
-    else:
-        rep.fail('C19.R4', f.site, 'missing local copy → full download', 'an absent/unreadable local file does not lead to a full download', where=f.where)
+    needl = {'IOError': False}
+    for t in loc_try:
+        for c in [c for s_ in t.body for c in ast.walk(s_) if _is_call(c, 'open')]:
+            mode = c.args[1].value if len(c.args) > 1 and isinstance(c.args[1], ast.Constant) else next((k.value.value for k in c.keywords if k.arg == 'mode' and isinstance(k.value, ast.Constant)), 'r')
+            if 'b' not in mode and not any(k.arg == 'errors' for k in c.keywords):
+                needl['UnicodeDecodeError'] = False
+        for h in t.handlers:
+            for k in needl:
+                if handler_names(h) & HIER[k] and falls_back(h):
+                    needl[k] = True
+    for k, v in needl.items():
+        what = 'missing local copy → full download' if k == 'IOError' else 'local copy that is not text (foreign file) → full download'
+        if v:
+            rep.ok('C19.R4', f.site, what, 'except %s: return download_file' % k, nontrivial=False)
+        else:
+            rep.fail('C19.R4', f.site, what, ('an absent/unreadable local file does not lead to a full download' if k == 'IOError' else
+                                               'a local file that is not valid text in the expected encoding makes the read raise UnicodeDecodeError, which no handler turns into a '
+                                               'full download: the update fails on every call until the file is removed by hand'), where=f.where)
     # implicit exceptions while interpreting the index: unguarded tuple unpacking of split(), unguarded dict subscripts, unbound locals
     for n in g.stmts():
         if n.kind == 'stmt' and isinstance(n.ast, ast.Assign) and isinstance(n.ast.targets[0], ast.Tuple):
@@ -745,6 +776,71 @@ def r8_malformed_entries(rep, src):
     return n
 
 
+def r9_faithful_io(rep, src):
+    """the content travels as text lines: local file -> lines -> hash / patch -> lines -> local file, and download -> lines.  The
+    hashes of the index are over the bytes of the file, and the result must equal the published bytes.  So every stream on that
+    path is byte-faithful: binary, or text with the one explicit encoding the hash functions encode with and without newline
+    translation (`newline='\\n'` when reading -- '' would still split at a lone CR and shift the line numbers the patches use --,
+    `newline` '' or '\\n' when writing; None is accepted there: os.linesep is LF on POSIX).  With the default `newline=None` a CR LF or a lone CR of the published content is read as LF:
+    the hash never matches, the full download rewrites the file with other bytes, and nothing reports it."""
+    mod = src.mod('debian_support')
+    sites = [(SITE, 'read'), ('debian_support:download_gunzip_lines', 'read'), ('debian_support:replace_file', 'write')]
+    enc_of_hash = set()
+    for q in ('read_lines_sha1', 'read_lines_sha256'):
+        fn = mod.funcs.get(q)
+        if fn is not None:
+            fnode_, _inl = normalize.inline_helpers(fn)          # a shared private helper that feeds the hash object
+            for c in ast.walk(fnode_):
+                if isinstance(c, ast.Call) and isinstance(c.func, ast.Attribute) and c.func.attr == 'encode' and c.args and isinstance(c.args[0], ast.Constant):
+                    enc_of_hash.add(str(c.args[0].value).upper().replace('_', '-'))
+    if len(enc_of_hash) != 1:
+        raise AnalysisError('hash functions encode text lines with %s' % (sorted(enc_of_hash) or 'no explicit encoding'))
+    want_enc = next(iter(enc_of_hash))
+    n = 0
+    for site, role in sites:
+        f = src.func(site)
+        rep.saw_func(f)
+        params = f.params()
+        defaults = {}
+        a = f.node.args
+        for p_, d_ in zip(a.args[len(a.args) - len(a.defaults):], a.defaults):
+            if isinstance(d_, ast.Constant):
+                defaults[p_.arg] = d_.value
+        for c in walk_no_nested(f.node):
+            if not (isinstance(c, ast.Call) and norm(c.func) in ('open', 'gzip.open', 'io.open', 'codecs.open')):
+                continue
+            kw = {k.arg: k.value for k in c.keywords if k.arg}
+            mode_node = c.args[1] if len(c.args) > 1 else kw.get('mode')
+            mode = mode_node.value if isinstance(mode_node, ast.Constant) else ('rb' if norm(c.func) == 'gzip.open' else 'r') if mode_node is None else None
+            what = '%s stream `%s`' % (role, norm(c)[:70])
+            n += 1
+            if mode is None:
+                raise AnalysisError('%s: mode of %s is not a constant' % (f.site, norm(c)[:60]))
+            if 'b' in mode and 't' not in mode:
+                rep.ok('C19.R9', f.site, what, 'binary', nontrivial=False)
+                continue
+            enc = kw.get('encoding')
+            encv = enc.value if isinstance(enc, ast.Constant) else defaults.get(enc.id) if isinstance(enc, ast.Name) else None
+            nl = kw.get('newline')
+            nlv = nl.value if isinstance(nl, ast.Constant) else Ellipsis if nl is not None else None
+            errs = kw.get('errors')
+            problems = []
+            if not isinstance(encv, str) or encv.upper().replace('_', '-') != want_enc:
+                problems.append('the text encoding is %s while the hashes are taken over the %s encoding of the lines: outside a %s locale the content is garbled or the read fails'
+                                % ('the locale\'s default' if enc is None else repr(encv), want_enc, want_enc))
+            if nlv not in (('\n',) if role == 'read' else ('', '\n', None)):        # writing with newline=None maps LF to os.linesep: the identity on POSIX (assumed)
+                problems.append('newline translation is on (newline=%r): a CR LF or lone CR in the published content is %s, so the local file and the returned lines differ from '
+                                'the published bytes and the file is never recognised as current' % (None if nlv is None else nlv, 'read as LF' if role == 'read' else 'rewritten'))
+            if errs is not None and not (isinstance(errs, ast.Constant) and errs.value == 'strict'):
+                problems.append('undecodable bytes are replaced instead of reported (errors=%s)' % norm(errs))
+            if problems:
+                rep.fail('C19.R9', f.site, what, '; '.join(problems), where='%s:%d' % (f.module.relpath, c.lineno))
+            else:
+                rep.ok('C19.R9', f.site, what, 'text, %s, no newline translation' % want_enc)
+    if n < 3:
+        raise AnalysisError('only %d content streams found (3 confirmed on the pinned tree: local read, download, replacement write)' % n)
+
+
 def check(src, rep, tier):
     rep.explanation = ('C19: CFG rules on update_file: the result-hash comparison (raise on mismatch) dominates the single replace_file '
                        'call and the hash is taken after the last patch; the per-patch hash comparison dominates patch_lines on the same '
@@ -767,6 +863,8 @@ def check(src, rep, tier):
     if g is not None:
         rep.guard('C19.R4', r4_fallbacks, src, g)
     rep.guard('C19.R5', r5_hash_backends, src)
+    rep.need('C19.R9', 3)
+    rep.guard('C19.R9', r9_faithful_io, src)
     rep.guard('C19.R6', r6_temp_download, src)
     rep.guard('C19.R7', r7_history_order, src, g)
     rep.guard('C19.R8', r8_malformed_entries, src)
